@@ -642,6 +642,20 @@ def main(argv):
     a = ap.parse_args(argv)
     seed = int(os.environ.get("VERIF_SEED", "0"))
     sys.path.insert(0, str(VERIF))
+    # one scratch directory per run, inherited by every worker and child process (forked workers skip their atexit handlers,
+    # so whatever they create is removed here by the parent)
+    import shutil
+    import tempfile
+    scratch = tempfile.mkdtemp(prefix="bnpverif_")
+    os.environ["TMPDIR"] = scratch
+    tempfile.tempdir = scratch
+    try:
+        return _main(a, seed)
+    finally:
+        shutil.rmtree(scratch, ignore_errors=True)
+
+
+def _main(a, seed):
     try:
         mod = importlib.import_module(f"harness.props.{a.pid.lower()}")
         rc = run_check(mod, a.tier, seed, a.replay)
